@@ -10,7 +10,6 @@ mod itermon;
 mod posmon;
 mod real;
 mod scoremon;
-mod workload;
 
 use posmon::{Oracle, Plan};
 use refmodel::json::J;
